@@ -17,7 +17,10 @@ def damaged_workspaces(rng, n):
     out = []
     alpha = p_syntax.CORE + p_syntax.EXTRA
     for i in range(n):
-        k = i % 8
+        k = i % 9
+        if k == 8:
+            out.append(Ws(ill_typed_workspace(rng), "ill-typed"))
+            continue
         base = gen_scope.generate(rng.randrange(1 << 30))
         files = [list(f) for f in base.files]
         gl = [j for j, (p, t) in enumerate(files) if p.endswith(".gleam")]
@@ -62,6 +65,55 @@ def damaged_workspaces(rng, n):
         files[j][1] = t
         out.append(Ws([tuple(f) for f in files], label))
     return out
+
+
+# well-formed but ill-typed (or oddly typed) functions: the inference engine meets sizes, arities, labels and shapes that
+# do not fit.  {k} = a small or huge index / arity, {n} = a fresh suffix
+ILL_TYPED = [
+    "pub fn tup{n}() {{\n  let t = #(1, \"a\")\n  t.{k}\n}}",
+    "pub fn tup_lit{n}() {{\n  #(1, 2, 3).{k}\n}}",
+    "pub fn tup_par{n}(p: #(Int, Int)) {{\n  p.{k} + p.0\n}}",
+    "pub fn tup_nest{n}(p: #(Int, #(Float, String))) {{\n  p.1.{k}\n}}",
+    "pub fn tup_unknown{n}(p) {{\n  let a = p.{k}\n  let b = p.0\n  #(a, b).{k}\n}}",
+    "pub fn tup_not{n}() {{\n  let x = 1\n  x.{k}\n}}",
+    "pub fn tup_pat{n}() {{\n  let #(a, b, c) = #(1, 2)\n  a + c\n}}",
+    "pub fn tup_pat2{n}(v: #(Int, Int, Int)) {{\n  case v {{\n    #(a, b) -> a\n    #(a, _, _, d) -> d\n  }}\n}}",
+    "pub type Rec{n} {{\n  Rec{n}(name: String, size: Int)\n  Other{n}(size: Int)\n}}\npub fn fld{n}(r: Rec{n}) {{\n  r.name\n  r.size\n  r.missing\n  r.size.more\n}}",
+    "pub fn fld_not{n}() {{\n  let x = [1]\n  x.first\n  1.5.value\n}}",
+    "pub fn callee{n}(a: Int, label b: String) {{\n  a\n}}\npub fn calls{n}() {{\n  callee{n}()\n  callee{n}(1)\n  callee{n}(1, \"s\", 3)\n  callee{n}(label: \"s\", 1)\n  callee{n}(1, nolabel: \"s\")\n  callee{n}(1, label: \"s\", label: \"t\")\n  callee{n}(b: 1, a: 2)\n}}",
+    "pub fn notfn{n}() {{\n  let x = 1\n  x(2)\n  \"s\"(x)\n  #(1, 2)(3)\n  [x](0)\n}}",
+    "pub fn mix{n}() {{\n  1 + \"a\"\n  [1, \"a\", 2.5]\n  1.5 <> 2\n  !1\n  -\"s\"\n}}",
+    "pub fn cas{n}(x) {{\n  case x {{\n    1 -> \"a\"\n    \"b\" -> 2\n    [a, ..] -> a\n    #(a) -> a\n  }}\n}}",
+    "pub type Opt{n}(a) {{\n  Som{n}(a)\n  Non{n}\n}}\npub fn ctor{n}(o: Opt{n}(Int)) {{\n  case o {{\n    Som{n}(a, b) -> a\n    Som{n} -> 1\n    Non{n}(x) -> x\n    Unknown{n}(y) -> y\n    Som{n}(label: z) -> z\n  }}\n}}",
+    "pub fn pipe{n}(x) {{\n  1 |> 2\n  x |> pipe{n}(1, _, _)\n  x |> pipe{n}\n  x |> pipe{n}()\n  x |> fn(a, b) {{ a }}\n}}",
+    "pub fn usecb{n}(f) {{\n  use a, b <- f(1)\n  use <- a\n  use c <- usecb{n}\n  c\n}}",
+    "pub fn rec_a{n}(x) {{\n  rec_a{n}(x, x)\n}}\npub fn rec_b{n}() {{\n  rec_b{n}()()\n}}\npub fn rec_c{n}(x) {{\n  rec_c{n}\n}}\npub fn rec_d{n}(x) {{\n  [rec_d{n}(x)]\n}}",
+    "pub fn gen_a{n}(x: a) -> b {{\n  x\n}}\npub fn gen_b{n}(x: List(a), y: a) -> a {{\n  gen_b{n}(y, x)\n}}",
+    "pub type Al{n}(a) = List(a)\npub fn al{n}(x: Al{n}, y: Al{n}(Int, Int), z: Al{n}(Al{n}(Int))) {{\n  x\n}}\npub fn al2{n}(x: Nope{n}, y: Som{n}) -> List {{\n  x\n}}",
+    "pub fn lam{n}() {{\n  let f = fn(a, b) {{ a }}\n  f(1)\n  f(1, 2, 3)\n  let g = fn(a: Int) -> String {{ a }}\n  g(\"s\").{k}\n}}",
+    "pub fn lst{n}(x) {{\n  let [a, b] = 1\n  let [c, ..d] = #(1, 2)\n  let e = [..x, 1]\n  [1, ..2]\n}}",
+    "pub fn big{n}() {{\n  let t = #(1, 2)\n  t.99999999999999999999\n  999999999999999999999999999999\n  0xFFFFFFFFFFFFFFFFFFFFFFFF\n  1.0e999999\n}}",
+    "pub const k{n} = #(1, 2)\npub const j{n}: String = 1\npub fn cst{n}() {{\n  k{n}.{k}\n  j{n}.{k}\n  k{n}(1)\n}}",
+    "pub fn shadow{n}(shadow{n}) {{\n  let shadow{n} = shadow{n}(shadow{n})\n  shadow{n}.{k}\n}}",
+    "pub fn str{n}(s) {{\n  case s {{\n    \"a\" <> rest -> rest.{k}\n    \"b\" <> _ -> 1\n    _ -> s <> 1\n  }}\n}}",
+]
+
+
+def ill_typed_workspace(rng):
+    n_mod = rng.randrange(1, 3)
+    files = []
+    for m in range(n_mod):
+        parts = []
+        if m == 1:
+            parts.append("import m0\nimport m0.{" + rng.choice(["tup0", "calls1", "Rec2", "type Rec2", "cas3", "missing"]) + "}")
+        for i in range(rng.randrange(3, 8)):
+            tpl = rng.choice(ILL_TYPED)
+            parts.append(tpl.format(n=i, k=rng.choice([0, 1, 2, 2, 3, 3, 4, 7, 99])))
+        if m == 1:
+            parts.append("pub fn cross() {\n  m0.tup0().2\n  m0.calls1(1)\n  tup0.3\n}")
+        files.append((f"/w/p/src/m{m}.gleam", "\n\n".join(parts) + "\n"))
+    files.append(("/w/p/gleam.toml", 'name = "p"\n'))
+    return files
 
 
 def alias_cycle(files):
@@ -162,7 +214,8 @@ def run_sweeps(res, tier, seed, want):
     res.cov["workspace_distribution"] = labels
     res.cov["rule"] = (f"{n} workspaces of 1-3 modules: well-formed, token/character damage, truncation, duplicated items, rewired imports "
                        "(cycles, self-imports), degenerate files (empty, non-ASCII, lone quote), syntax soup from the reference grammar, arity "
-                       "damage in case clauses; in every file, at every token boundary: hover, go-to-definition, references, highlight, completion "
+                       "damage in case clauses, well-formed but ill-typed programs (tuple indices at and past the arity, missing fields, wrong call arities and labels, "
+                       "calls of non-functions, mismatched patterns, huge literals); in every file, at every token boundary: hover, go-to-definition, references, highlight, completion "
                        "(plain, `.`, `@`), signature help, prepare-rename, rename (both name classes); per file: diagnostics, semantic "
                        "highlighting, syntax tree. non-trivial = damaged workspace")
     res.cov["samples"] += [{"workspace": wss[i].label, "answer": answers[i][0][:300]} for i in (0, 1, min(9, len(wss) - 1))]
